@@ -173,9 +173,10 @@ type block struct {
 	proto    cdesc // Kind/Codec/A/B filled in; the local index selects value range, left key, mutation or string
 }
 
-func mutationsOf(in []byte) []mutation {
+// mutationsOf lists the mutations of one decoder input; offsets below skip are left alone (see decoder.Frame).
+func mutationsOf(in []byte, skip int) []mutation {
 	var out []mutation
-	for k := 0; k < len(in); k++ {
+	for k := skip; k < len(in); k++ {
 		out = append(out, mutation{Kind: "trunc", K: k})
 		for v := range substVals {
 			if in[k] != substVals[v] {
@@ -250,7 +251,7 @@ func buildPlan(th bool) *plan {
 				if d.Strip > len(encs[bi]) {
 					continue
 				}
-				add(len(mutationsOf(encs[bi][d.Strip:])), cdesc{Kind: "mut", Codec: ci, A: bi, B: di})
+				add(len(mutationsOf(encs[bi][d.Strip:], d.frameSkip(th, bi))), cdesc{Kind: "mut", Codec: ci, A: bi, B: di})
 			}
 		}
 	}
@@ -297,7 +298,8 @@ func (pl *plan) caseAt(i int) cdesc {
 		cd.B = j
 	case "mut":
 		if pl.mutCacheBlock != lo {
-			pl.mutCache = mutationsOf(pl.benc[cd.Codec][cd.A][codecs[cd.Codec].Decs[cd.B].Strip:])
+			d := codecs[cd.Codec].Decs[cd.B]
+			pl.mutCache = mutationsOf(pl.benc[cd.Codec][cd.A][d.Strip:], d.frameSkip(pl.th, cd.A))
 			pl.mutCacheBlock = lo
 		}
 		cd.M = pl.mutCache[j]
